@@ -17,6 +17,21 @@ type WouldBlockForever struct{ Op string }
 
 func (w WouldBlockForever) Error() string { return "would block forever: " + w.Op }
 
+// NonTermination is raised when one harness operation performs more lock acquisitions than the
+// budget set with SetBudget allows: the deterministic, crash-free way in which unbounded recursion /
+// looping through locked methods is observed (the alternative being a fatal stack overflow).
+type NonTermination struct{ Acquisitions int64 }
+
+func (n NonTermination) Error() string {
+	return fmt.Sprintf("does not terminate: more than %d lock acquisitions in one call", n.Acquisitions)
+}
+
+// budget < 0: disabled. Only meaningful when instrumented code runs on one goroutine at a time.
+var budget, budgetInit int64 = -1, -1
+
+// SetBudget arms the per-operation acquisition budget (call before every harness operation).
+func SetBudget(n int64) { budget, budgetInit = n, n }
+
 type mstate struct {
 	writer  bool
 	readers int
@@ -44,6 +59,13 @@ func (h *hook) get(p unsafe.Pointer) (*mstate, *sync.Mutex) {
 }
 
 func (h *hook) Acquire(p unsafe.Pointer, op int) {
+	if budget >= 0 {
+		if budget == 0 {
+			budget = -1
+			panic(NonTermination{budgetInit})
+		}
+		budget--
+	}
 	st, mu := h.get(p)
 	defer mu.Unlock()
 	switch op {
